@@ -2102,6 +2102,52 @@ func ruleParenKeepsFunctionLine(c *Ctx) {
 			})
 		}
 	}
+	// F102: the action that builds a function STATEMENT stamps the function node it was handed with the
+	// line of the statement's first token (the `function` keyword): linedefined is that line
+	stmtCases, stamped := 0, 0
+	var unst ast.Node
+	for _, f := range pk.Syntax {
+		ast.Inspect(f, func(n ast.Node) bool {
+			cc, ok := n.(*ast.CaseClause)
+			if !ok {
+				return true
+			}
+			builds := false
+			stamps := false
+			ast.Inspect(cc, func(m ast.Node) bool {
+				if cl, ok := m.(*ast.CompositeLit); ok {
+					if t := info.TypeOf(cl); t != nil && typeName(t) == "ast.FuncDefStmt" {
+						builds = true
+					}
+				}
+				if call, ok := m.(*ast.CallExpr); ok {
+					if se, ok := call.Fun.(*ast.SelectorExpr); ok && se.Sel.Name == "SetLine" {
+						if t := info.TypeOf(se.X); t != nil && typeName(t) == "ast.FunctionExpr" {
+							if inner, ok := se.X.(*ast.SelectorExpr); ok && isSym(inner.X) {
+								stamps = true
+							}
+						}
+					}
+				}
+				return true
+			})
+			if builds {
+				stmtCases++
+				if stamps {
+					stamped++
+				} else if unst == nil {
+					unst = cc
+				}
+			}
+			return false
+		})
+	}
+	spos := "-"
+	if unst != nil {
+		spos = p.pos(unst.Pos())
+	}
+	c.Sites += stmtCases
+	c.check(stmtCases >= 1 && stamped == stmtCases, R, "parser:function-statement-defined-at-its-keyword", spos, fmt.Sprintf("%d action(s) that build a function statement stamp the function with the statement's first line", stmtCases), "the grammar action for `function name(...) … end` leaves the function node with the line of its parameter list: for `function g` newline `(a) … end` debug.getinfo(g, 'S').linedefined is the line of the parenthesis, the reference reports the line of the keyword")
 	c.Sites += sites
 	pos := "-"
 	if bad != nil {
@@ -3225,4 +3271,160 @@ func ruleReadBounded(c *Ctx) {
 		c.Sites++
 		c.check(okc, R, name+":reads-only-through-an-existing-reader", p.pos(fn.Pos()), "the line is read after the handle's reader was found non-nil", name+" reads a line through file.reader without looking whether the handle has one: iterating a handle that was opened for writing (io.input(io.open(p, 'w')); io.lines()) dereferences nil")
 	}
+}
+
+// ruleTailMovesWholeFrame: F100. The Lua arm of OP_TAILCALL slides the callee's frame — function slot,
+// arguments, and after frame set-up every register up to the top — down to the caller's base. The number
+// of slots moved is Top() - RA (RA = LocalBase + A, the function slot): one less leaves the callee's
+// highest register behind, which is the compat arg table of a vararg function that uses no other register.
+func ruleTailMovesWholeFrame(c *Ctx) {
+	const R = "R02-tailframe"
+	p := c.P
+	oi := p.vmTable().ByName["OP_TAILCALL"]
+	if oi == nil || oi.Handler == nil {
+		c.und(R, "TAILCALL:moves-the-whole-frame", "-", "handler not found")
+		return
+	}
+	h := oi.Handler
+	top := p.Fn("lua", "(*registry).Top")
+	lbF := p.Field("lua", "callFrame", "LocalBase")
+	n, okc := 0, true
+	var where ssa.Instruction
+	allInstrs(h, func(in ssa.Instruction) {
+		b, ok := in.(*ssa.BinOp)
+		if !ok || b.Op != token.LSS {
+			return
+		}
+		// a loop bound of the shape Top() - LocalBase - A + K
+		var hasTop, hasLB bool
+		var walk func(v ssa.Value, sign int, d int)
+		walk = func(v ssa.Value, sign int, d int) {
+			v = stripConv(v)
+			if d > 6 {
+				return
+			}
+			if bo, ok := v.(*ssa.BinOp); ok && (bo.Op == token.ADD || bo.Op == token.SUB) {
+				walk(bo.X, sign, d+1)
+				if bo.Op == token.ADD {
+					walk(bo.Y, sign, d+1)
+				} else {
+					walk(bo.Y, -sign, d+1)
+				}
+				return
+			}
+			if cl, ok := v.(*ssa.Call); ok && cl.Call.StaticCallee() == top && sign > 0 {
+				hasTop = true
+			}
+			if _, ok := loadsField(v, lbF); ok && sign < 0 {
+				hasLB = true
+			}
+		}
+		walk(b.Y, 1, 0)
+		l := lin(b.Y)
+		if !hasTop || !hasLB || len(l.T) != 3 {
+			return
+		}
+		n++
+		if l.K < 0 {
+			okc = false
+			if where == nil {
+				where = in
+			}
+		}
+	})
+	pos := p.pos(h.Pos())
+	if where != nil {
+		pos = p.ipos(where)
+	}
+	c.Sites++
+	c.check(n > 0 && okc, R, "TAILCALL:moves-the-whole-frame", pos, fmt.Sprintf("%d block move(s) of Top() - RA slots", n), "the block move of a tail call copies fewer than Top() - RA slots: the callee's highest register stays behind — `local function f(a, ...) return arg end` reached by `return f(...)` returns nil instead of the arg table")
+}
+
+// ruleUnaryHandlerArgs: F101. The handler of a unary operation is called with the operand twice.
+func ruleUnaryHandlerArgs(c *Ctx) {
+	const R = "R04-events"
+	p := c.P
+	oi := p.vmTable().ByName["OP_UNM"]
+	if oi == nil || oi.Handler == nil {
+		c.und(R, "handler[OP_UNM]:handler-gets-operand-twice", "-", "handler not found")
+		return
+	}
+	h := oi.Handler
+	call := p.Fn("lua", "(*LState).Call")
+	okc, n := true, 0
+	for _, cl := range callsTo(h, call) {
+		n++
+		if k, ok := constInt(cl.Call.Args[1]); !ok || k != 2 {
+			okc = false
+		}
+	}
+	c.Sites++
+	c.check(n > 0 && okc, R, "handler[OP_UNM]:handler-gets-operand-twice", p.pos(h.Pos()), "the __unm handler is called with two arguments", "the __unm handler is called with one argument: Lua 5.1 passes the operand twice (a handler written as function(a, b) sees b == nil)")
+}
+
+// ruleBulkMoveEndsAtTargets: F103. "A jump never lands inside a multi-word group": patchCode's bulk-move
+// merging consults the label table — the count of pending MOVEs is reset under a test that depends on
+// the positions the labels were bound to.
+func ruleBulkMoveEndsAtTargets(c *Ctx) {
+	const R = "R07-skipgroup"
+	p := c.P
+	fn := c.need(R, "lua", "patchCode")
+	if fn == nil {
+		return
+	}
+	lpF := p.Field("lua", "funcContext", "labelPc")
+	moven := p.op("OP_MOVEN")
+	readsLabels := false
+	allInstrs(fn, func(in ssa.Instruction) {
+		if rg, ok := in.(*ssa.Range); ok {
+			if _, ok := loadsField(rg.X, lpF); ok {
+				readsLabels = true
+			}
+		}
+		if lk, ok := in.(*ssa.Lookup); ok {
+			if _, ok := loadsField(lk.X, lpF); ok {
+				readsLabels = true
+			}
+		}
+	})
+	// a SetOpCode(…, OP_MOVEN) that is guarded by a map lookup (the target set)
+	g := p.G(fn)
+	guarded := false
+	allInstrs(fn, func(in ssa.Instruction) {
+		cl, ok := in.(*ssa.Call)
+		if !ok {
+			return
+		}
+		sc := cl.Call.StaticCallee()
+		if sc == nil || sc.Name() != "SetOpCode" || len(cl.Call.Args) < 3 {
+			return
+		}
+		if k, ok := constInt(cl.Call.Args[2]); !ok || k != moven {
+			return
+		}
+		for _, cd := range g.expandAnd(g.CondsAtInstr(cl)) {
+			var viaLookup func(v ssa.Value, d int) bool
+			viaLookup = func(v ssa.Value, d int) bool {
+				if d > 4 {
+					return false
+				}
+				if _, ok := v.(*ssa.Lookup); ok {
+					return true
+				}
+				if x, ok := v.(ssa.Instruction); ok {
+					for _, op := range x.Operands(nil) {
+						if *op != nil && viaLookup(*op, d+1) {
+							return true
+						}
+					}
+				}
+				return false
+			}
+			if viaLookup(cd.V, 0) {
+				guarded = true
+			}
+		}
+	})
+	c.Sites++
+	c.check(readsLabels && guarded, R, "patchCode:bulk-move-ends-at-jump-targets", p.pos(fn.Pos()), "the pending group is closed where a label was bound", "patchCode merges a run of MOVEs into one MOVEN group without looking at the label table: a jump target inside the run ends up inside the multi-word group (`local c = a or b; local d = e; local g = a`)")
 }
